@@ -95,7 +95,24 @@ def body_binary(case, ctx):
     with np.errstate(all="ignore"):
         exp = lib(apply, case["op"], "ufunc", da, db)
         got = lib(apply, case["op"], case["spell"], x, y)
-    check_result(got, exp, case["op"], "rl-rl", True, op=case["op"])
+    try:
+        check_result(got, exp, case["op"], "rl-rl", True, op=case["op"])
+    except Violation as v:
+        # numpy itself is not single-valued on a few inputs: its scalar loop and its array loop disagree (float32 / float64
+        # power(-inf, 0.5): inf from the array loop, nan from the scalar loop).  Where they do, either answer is numpy's.
+        if not v.kind.endswith(":values") or not (exp.ok and got.ok):
+            raise
+        uf = getattr(np, case["op"])
+        with np.errstate(all="ignore"):
+            alt = lib(lambda: np.array([uf(p, q) for p, q in zip(da, db)]))
+            dec = lib(lambda: rl.decode(got.value))
+        e = np.asarray(exp.value)
+        if not (alt.ok and dec.ok and alt.value.shape == e.shape == dec.value.shape and not arrays_equal(alt.value.astype(e.dtype), e)):
+            raise
+        g, a2 = dec.value, alt.value.astype(e.dtype)
+        if not all(arrays_equal(g[i:i + 1], e[i:i + 1]) or arrays_equal(g[i:i + 1], a2[i:i + 1]) for i in range(len(e))):
+            raise
+        ctx.label("numpy-scalar-and-array-loops-disagree:either-accepted")
     unchanged(x, da, "rl-rl-a")
     unchanged(y, db, "rl-rl-b")
 
